@@ -116,7 +116,10 @@ def validate_traces(trace_file: str, module: str, invariants: list[str], workdir
     done: dict[str, int] = {}
     states = 0
     generated = 0
-    expected_tids = {json.loads(ln)["tid"]: len(json.loads(ln)["events"]) for ln in lines}
+    expected_tids = {}
+    for ln in lines:
+        rec_ = json.loads(ln)
+        expected_tids[rec_["tid"]] = len(rec_.get("events", rec_.get("map", rec_.get("steps", []))))
     for (rc, out), j in zip(outs, jobs):
         if rc == -9:
             raise TLCFailure(f"TLC timed out: {j[3]}")
